@@ -130,7 +130,7 @@ def e2e_cases(ctx):
           block, shapes = 8, make_tree(rng, N, False)
       for Ds in Dsets:
         seed = rng.next() % (1 << 31)
-        roots = ["surrogate"] + (["real"] if (i + modes.index(mode)) % (3 if quick else 2) == 0 else [])
+        roots = ["surrogate"] + (["real"] if (i + modes.index(mode)) % 3 == 0 else [])
         for root in roots:
           # surrogate runs: beta2 = 1 so that the statistics update S + G G^T contains no
           # multiply-add that XLA may or may not contract into an FMA depending on the program
